@@ -77,3 +77,41 @@ def rand_any(rng, maxdigits=60, wide=True):
     if k == 1:
         return inf(rng.randint(0, 1), prec=rng.choice([0, 1, 34]), mode=rng.randint(0, 5), acc=rng.choice([-1, 0, 1]))
     return rand_fin(rng, maxdigits, wide=wide)
+
+
+# ----------------------------------------------------------------------------
+# rendering of operation text as a Coq term of type L3.Store.op (vm_compute sample)
+
+MODE_NAMES = ["ToNearestEven", "ToNearestAway", "ToZero", "AwayFromZero", "ToNegativeInf", "ToPositiveInf"]
+
+
+def _z(s):
+    return "(%s)" % s if str(s).startswith("-") else str(s)
+
+
+def coq_op(o):
+    t = o.split()
+    n = t[0]
+    if n in ("Cmp", "Add", "Sub", "Mul", "Quo", "FMA", "Set", "Neg", "Abs", "Copy", "Sign", "Signbit", "IsZero", "IsInf",
+             "BitsExp", "MinPrec", "IsInt", "Int64", "Uint64", "Int", "Rat", "GobEncode", "GobRoundTrip", "Sqrt"):
+        return "(O%s %s)" % (n, " ".join(t[1:]))
+    if n == "SetPrec":
+        return "(OSetPrec %s %s)" % (t[1], _z(t[2]))
+    if n == "SetMode":
+        return "(OSetMode %s %s)" % (t[1], MODE_NAMES[int(t[2])])
+    if n == "SetInf":
+        return "(OSetInf %s %s)" % (t[1], "true" if t[2] == "1" else "false")
+    if n in ("SetInt64", "SetUint64", "SetInt"):
+        return "(O%s %s %s)" % (n, t[1], _z(t[2]))
+    if n in ("SetRat", "NewDecimal"):
+        return "(O%s %s %s %s)" % (n, t[1], _z(t[2]), _z(t[3]))
+    if n == "SetMantExp":
+        return "(OSetMantExp %s %s %s)" % (t[1], t[2], _z(t[3]))
+    if n == "MantExp":
+        return "(OMantExp %s %s)" % (t[1], "None" if t[2] == "-" else "(Some %s)" % t[2])
+    if n == "SetBitsExp":
+        return "(OSetBitsExp %s %s [%s])" % (t[1], _z(t[2]), "; ".join(t[4:]))
+    if n == "GobDecode":
+        h = "" if t[2] == "-" else t[2]
+        return "(OGobDecode %s [%s])" % (t[1], "; ".join(str(int(h[i:i + 2], 16)) for i in range(0, len(h), 2)))
+    raise KeyError(n)
